@@ -75,7 +75,9 @@ def make_grid(c):
         if c.get('base') is not None: opts['base_shape_multiple'] = int(c['base'])
         if c.get('stacked') is not None: opts['stacked_fourier_transforms'] = bool(c['stacked'])
         if c.get('rev') is not None: opts['reverse_einsum_arg_order'] = bool(c['rev'])
-        impl = functools.partial(sh.FastSphericalHarmonics, **opts)
+        if c.get('prec') is not None: opts['transform_precision'] = str(c['prec'])
+        cls = sh.RealSphericalHarmonicsWithZeroImag if c.get('alias') else sh.FastSphericalHarmonics
+        impl = functools.partial(cls, **opts) if opts else cls
         if c.get('rev'):
             g = sh.Grid(spherical_harmonics_impl=impl, spmd_mesh=trivial_mesh(), **kw)
         else:
@@ -146,6 +148,32 @@ def to_modal(g, z):
     return np.asarray(g.to_modal(jnp.asarray(z)))
 
 
+def indep_mask(c, shape):
+    """The triangular truncation from its definition (|m| <= l < L, m in [0,+1,-1,...]; fast layout: extra
+    row 1 and all padding excluded) - independent of Grid.mask / modal_axes."""
+    rows, cols = shape; M, L = c['M'], c['L']
+    mk = np.zeros((rows, cols), bool)
+    for a_ in range(2 * M - 1):
+        k = a_ if not is_fast(c) else (0 if a_ == 0 else a_ + 1)
+        for l_ in range(L):
+            mk[k, l_] = (a_ + 1) // 2 <= l_
+    return mk
+
+
+def indep_nodes(c):
+    """Longitudes and sin(latitude) nodes from the grid definition (numpy only, no dinosaur/scipy call)."""
+    I, Jn = c['I'], c['J']
+    lon = 2 * np.pi * np.arange(I) / I + float(c.get('offset', 0.0))
+    sp = c.get('spacing', 'gauss')
+    if sp == 'gauss':
+        x = np.polynomial.legendre.leggauss(Jn)[0]
+    elif sp == 'equiangular':
+        x = np.sin(-np.pi / 2 + (np.arange(Jn) + 0.5) * np.pi / Jn)
+    else:
+        x = np.sin(-np.pi / 2 + np.arange(Jn) * np.pi / (Jn - 1)) if Jn > 1 else np.array([-1.0])
+    return lon, x
+
+
 def model_resolves(ctx, c):
     """(resolves?, exact degree D of the latitude rule) from the model's predicate."""
     sp = SPACINGS.index(c.get('spacing', 'gauss'))
@@ -189,6 +217,16 @@ def small_configs(rng, tier):
     out.append(dict(M=3, L=4, I=10, J=5, spacing='equiangular_with_poles', offset=0.0, radius=1.0))   # T*-like, equiangular
     # with_wavenumbers-style grids
     out.append(dict(M=4, L=5, I=13, J=7, spacing='gauss', offset=0.0, radius=1.0))
+    # layout thresholds: wide / tall grids, total_wavenumbers > longitude_wavenumbers + 1, longitude_nodes = 2(M-1)
+    # (top zonal wavenumber at the Nyquist frequency), extreme radii, offsets outside [0, 2 pi)
+    out.append(dict(M=2, L=3, I=200, J=3, spacing='gauss', offset=-0.3, radius=6.37122e6))
+    out.append(dict(M=2, L=3, I=5, J=120, spacing='gauss', offset=7.0, radius=1e-3))
+    out.append(dict(M=2, L=6, I=5, J=6, spacing='gauss', offset=0.0, radius=1.0))
+    out.append(dict(M=4, L=5, I=6, J=5, spacing='gauss', offset=0.1, radius=1.0))
+    if tier != 'quick':
+        out.append(dict(M=3, L=8, I=7, J=15, spacing='equiangular', offset=0.0, radius=7.0 / 3.0))
+        out.append(dict(M=2, L=2, I=2, J=2, spacing='equiangular_with_poles', offset=0.0, radius=1.0))
+        out.append(dict(M=3, L=4, I=300, J=4, spacing='equiangular', offset=0.1, radius=1.0))
     return out
 
 
@@ -204,6 +242,16 @@ def generate(ctx):
     rng = ctx.rng
     cfgs = small_configs(rng, ctx.tier)
     yield 'factory', {}
+    yield 'rejects', {}
+    fcfg = dict(M=3, L=4, I=7, J=4, spacing='gauss', offset=0.1, radius=7.0 / 3.0)
+    forms = [dict(fcfg, impl='real'), dict(fcfg, impl='fast', base=4, stacked=1, rev=0),
+             dict(fcfg, impl='fast', base=1, stacked=0, rev=1)]
+    if ctx.tier != 'quick':
+        forms += [dict(M=2, L=5, I=5, J=9, spacing='equiangular', offset=0.0, radius=1.0, impl='real'),
+                  dict(M=4, L=4, I=9, J=4, spacing='gauss', offset=0.0, radius=1.0, impl='fast', base=8, stacked=0, rev=0, prec='float32'),
+                  dict(fcfg, impl='fast', alias=1)]
+    for fc in forms:
+        yield 'forms', {'cfg': fc, 'seed': int(rng.integers(0, 2 ** 31))}
     for mesh, K in ([([2, 1, 1], 3), ([1, 4, 2], 2)] if ctx.tier == 'quick' else
                     [([2, 1, 1], 3), ([1, 4, 2], 2), ([4, 2, 1], 5), ([2, 2, 2], 7)]):
         yield 'mesh', {'mesh': mesh, 'L': 7, 'K': K, 'base': 1, 'seed': int(rng.integers(0, 2 ** 31))}
@@ -215,11 +263,11 @@ def generate(ctx):
         seed = int(rng.integers(0, 2 ** 31))
         yield 'layout', {'cfg': dict(c, impl='real')}
         yield 'tables', {'cfg': dict(c, impl='real')}
-        yield 'transforms', {'cfg': dict(c, impl='real'), 'seed': seed, 'max_onehot': 0, 'max_model_analysis': 10,
-                             'lead': [[], [2], [2, 2]][n % 3]}
+        yield 'transforms', {'cfg': dict(c, impl='real'), 'seed': seed, 'max_onehot': 0,
+                             'max_model_analysis': 10 if c['I'] * c['J'] < 300 else 2, 'lead': [[], [2], [2, 2]][n % 3]}
         if n % 3 == 0 or c['M'] == 5:
             # the fast implementation on the same grid (options are explored exhaustively by C09)
-            fc = dict(c, impl='fast', base=[1, 4][(n // 3) % 2], stacked=int((n // 6) % 2), rev=0)
+            fc = dict(c, impl='fast', base=[1, 4, 8][(n // 3) % 3], stacked=int((n // 6) % 2), rev=0)
             yield 'layout', {'cfg': fc}
             yield 'transforms', {'cfg': fc, 'seed': seed, 'max_onehot': 0, 'max_model_analysis': 6,
                                  'lead': [[], [3]][n % 2]}
@@ -279,6 +327,20 @@ def r_factory(ctx, a):
     ctx.oracle_close('a constant field of ones has sqrt(4 pi) in entry [0,0] (what the literal stands for)',
                      ones[0, 0], np.asarray(math.sqrt(4 * math.pi)), scale=8.0)
     ctx.oracle_close('... and the literal agrees with it to float32 accuracy', np.asarray(float(cq)), ones[0, 0], scale=1.0, tol_rel=1e-7)
+    # keyword pass-through of the other constructors, and re-construction with one changed field
+    import dataclasses
+    gw = sh.Grid.with_wavenumbers(5, dealiasing='cubic', latitude_spacing='equiangular', longitude_offset=0.3, radius=2.0,
+                                  spherical_harmonics_impl=sh.FastSphericalHarmonics)
+    ctx.exact('with_wavenumbers passes options through', [gw.latitude_spacing, gw.longitude_offset, gw.radius, list(gw.modal_shape),
+              gw.longitude_nodes, gw.latitude_nodes], ['equiangular', 0.3, 2.0, [10, 6], 21, 11])
+    gt = sh.Grid.T21(radius=3.0, spherical_harmonics_impl=sh.FastSphericalHarmonics, longitude_offset=0.5, latitude_spacing='equiangular_with_poles')
+    ctx.exact('factory methods pass keyword options through', [gt.radius, list(gt.modal_shape), gt.longitude_offset, gt.latitude_spacing],
+              [3.0, [44, 23], 0.5, 'equiangular_with_poles'])
+    g1 = sh.Grid(3, 4, 8, 5, radius=1.0); _ = g1.laplacian_eigenvalues, g1.nodal_axes
+    g2 = dataclasses.replace(g1, radius=2.0, longitude_offset=0.25)
+    ctx.exact('a grid rebuilt with another radius / offset does not reuse cached attributes',
+              [float(g2.laplacian_eigenvalues[1]), float(g1.laplacian_eigenvalues[1]), float(g2.nodal_axes[0][0]), float(g1.nodal_axes[0][0])],
+              [-0.5, -2.0, 0.25, 0.0])
     # radius default
     ctx.exact('radius default', sh.Grid(2, 3, 4, 3).radius, 1.0)
 
@@ -309,6 +371,19 @@ def r_layout(ctx, a):
         ctx.exact('modal_axes m (fast)', [int(v) for v in m_ax], [int(v) for v in r[5:5 + rows]])
         ctx.exact('modal_axes l (fast)', [int(v) for v in l_ax], [int(v) for v in r[5 + rows:5 + rows + cols]])
         ctx.exact('mask (fast)', mask.astype(int).ravel().tolist(), [int(v) for v in r[5 + rows + cols:]])
+    # independent definitions: triangle mask, node coordinates (grid definition, numpy only)
+    ctx.oracle('Grid.mask is the triangular truncation |m| <= l < L (independent definition)',
+               bool(np.array_equal(mask, indep_mask(c, g.modal_shape))), None)
+    lon, x = indep_nodes(c)
+    glon, gsin = g.nodal_axes
+    ctx.oracle_close('longitudes = offset + 2 pi i / I', np.asarray(glon)[:c['I']], lon, scale=max(1.0, abs(float(c.get('offset', 0.0))) + 7.0), tol_rel=2.0 ** -48)
+    ctx.oracle_close('sin(latitude) nodes = nodes of the declared spacing (numpy leggauss / equal angles)', np.asarray(gsin)[:c['J']], x,
+                     scale=1.0, tol_rel=2.0 ** -44)
+    ctx.oracle_close('Grid.latitudes = arcsin(nodes), Grid.longitudes', np.concatenate([np.asarray(g.latitudes)[:c['J']], np.asarray(g.longitudes)[:c['I']]]),
+                     np.concatenate([np.arcsin(np.clip(x, -1, 1)), lon]), scale=8.0 + abs(float(c.get('offset', 0.0))), tol_rel=2.0 ** -24)
+    if is_fast(c):
+        ctx.oracle('padded nodal axes are zero (+offset)', bool((np.asarray(gsin)[c['J']:] == 0).all()
+                   and (np.asarray(glon)[c['I']:] == float(c.get('offset', 0.0))).all()), None)
     # Laplacian eigenvalue table over the (padded) l axis
     e = ctx.model.call(5, [c['L'], g.modal_shape[1]], [[float(g.radius)]])
     ctx.corr('laplacian_eigenvalues', np.asarray(g.laplacian_eigenvalues, dtype=np.float64), e,
@@ -384,6 +459,31 @@ def r_tables(ctx, a):
                          {'sum': tot})
     ctx.table_obligation('Grid.quadrature_weights is basis.w broadcast',
                          bool(np.array_equal(np.asarray(g.quadrature_weights), np.broadcast_to(w, (I, Jn)))), None)
+    # independent characterisation of the latitude rule: exact monomial moments up to its degree D
+    _, xi = indep_nodes(c)
+    xs, _ = sh.get_latitude_nodes(Jn, c['spacing'])
+    mom_ok = True; worst = 0.0
+    for n_ in range(0, D + 1):
+        want = 2.0 / (n_ + 1) if n_ % 2 == 0 else 0.0
+        e = abs(float(np.sum(wp * xi ** n_)) - want)
+        worst = max(worst, e); mom_ok = mom_ok and e <= tol * max(1.0, float(np.abs(wp).sum()))
+    ctx.table_obligation(f'latitude rule integrates x^n exactly for n <= D={D} (independent nodes)', mom_ok, {'max_err': worst})
+    # parity of the Legendre functions on the (symmetric) nodes: p[a, J-1-j, l] = (-1)^(l-|m|) p[a, j, l]
+    sgn = (-1.0) ** ((np.arange(L)[None, :] - mabs[:, None]) % 2)
+    pe_ = np.abs(p[:, ::-1, :] - sgn[:, None, :] * p)
+    ctx.table_obligation('parity p(-x) = (-1)^(l-m) p(x) on the symmetric nodes', bool((pe_ <= 2.0 ** -30 * (np.abs(p).max() + 1)).all()),
+                         float(pe_.max()))
+    # associated_legendre._evaluate_rhombus: default 'rhombus' truncation agrees with 'triangle' on the triangle
+    rh = al._evaluate_rhombus(n_l=L, n_m=M, x=xs); tr = al._evaluate_rhombus(n_l=L, n_m=M, x=xs, truncation='triangle')
+    tri = (np.arange(L)[:, None] + np.arange(M)[None, :]) < L
+    ctx.table_obligation('_evaluate_rhombus: rhombus and triangle truncations agree on the triangle, triangle is zero outside',
+                         bool(np.array_equal(rh[tri], tr[tri]) and (tr[~tri] == 0).all()), None)
+    # cached node tables (lru_cache) have not been mutated by anything run so far in this process
+    if c['spacing'] != 'gauss':
+        fn = al.equiangular_nodes if c['spacing'] == 'equiangular' else al.equiangular_nodes_with_poles
+        xc, wc = fn(Jn); xf, wf_ = fn.__wrapped__(Jn)
+        ctx.oracle('lru_cached latitude nodes / weights equal a fresh evaluation (cache not mutated)',
+                   bool(np.array_equal(xc, xf) and np.array_equal(wc, wf_)), None)
     ctx.count('grid:resolves' if res else 'grid:does-not-resolve')
 
 
@@ -401,11 +501,12 @@ def r_transforms(ctx, a):
     c = a['cfg']; g = make_grid(c)
     rng = np.random.Generator(np.random.PCG64(a['seed']))
     rows, cols = g.modal_shape; In, Jn = g.nodal_shape
-    mask = np.asarray(g.mask)
+    mask = indep_mask(c, g.modal_shape)          # the truncation from its definition, not Grid.mask
     res, D = model_resolves(ctx, c)
     Lb = band_limit(c, D)
     fast = is_fast(c)
     meshed = bool(c.get('rev'))
+    snap = [t.copy() for t in tables(g)]
     tag = c.get('impl', 'real')
     r2 = float(g.radius) ** 2
     f, p, w = tables(g)
@@ -513,6 +614,30 @@ def r_transforms(ctx, a):
     ctx.oracle_close('integrate of one-hot fields = radius^2 sqrt(4 pi) delta', INT[:n1][[n for n, (a_, l_) in enumerate(allpos) if l_ <= D]],
                      np.array([r2 * math.sqrt(4 * math.pi) * (1.0 if (a_, l_) == (0, 0) else 0.0) for (a_, l_) in allpos if l_ <= D]),
                      scale=float(np.einsum('j,bij->b', np.abs(w), np.abs(Z[:n1])).max() * r2) + 1e-300)
+    # analytic fields sampled on independently computed nodes: 1, sin(lat), cos(lat)cos(lon), cos(lat)sin(lon)
+    # (orthonormal real harmonics with the Condon-Shortley phase: Y00 = 1/sqrt(4pi), Y10 = sqrt(3/4pi) sin(lat),
+    #  Y1,+-1 = -sqrt(3/4pi) cos(lat) {cos,sin}(lon); the transform's longitudes start at 0, offset only labels them)
+    lon0 = 2 * np.pi * np.arange(c['I']) / c['I']; _, xn = indep_nodes(c)
+    cosl = np.sqrt(np.maximum(0.0, 1 - xn ** 2))
+    fields = [(np.ones((c['I'], c['J'])), (0, 0), math.sqrt(4 * math.pi), 0, 0)]
+    if c['L'] >= 2: fields.append((np.broadcast_to(xn, (c['I'], c['J'])).copy(), (0, 1), math.sqrt(4 * math.pi / 3), 0, 1))
+    if c['L'] >= 2 and c['M'] >= 2:
+        fields.append((np.cos(lon0)[:, None] * cosl[None, :], (1, 1), -math.sqrt(4 * math.pi / 3), 1, 1))
+        fields.append((np.sin(lon0)[:, None] * cosl[None, :], (2, 1), -math.sqrt(4 * math.pi / 3), 1, 1))
+    for fld, (a_, l_), coef, m_, deg in fields:
+        # needs: products with every retained basis function integrated exactly in latitude, no zonal aliasing
+        if deg + (c['L'] - 1) > D or m_ + (c['M'] - 1) >= c['I']:
+            ctx.count('analytic field skipped (rule does not resolve it)'); continue
+        zf = np.zeros((In, Jn)); zf[:c['I'], :c['J']] = fld
+        yf = to_modal(g, zf)
+        want = np.zeros((rows, cols)); want[(a_ if not fast else (0 if a_ == 0 else a_ + 1)), l_] = coef
+        ctx.oracle_close(f'to_modal of the analytic field of degree {deg}, order {m_} has the single coefficient {coef:.6f}',
+                         yf, want, scale=8.0 * max(1.0, float(np.abs(w).sum() * c['I'])))
+    # purity: same input again after other calls -> bit-identical; cached basis tables not mutated
+    Z2 = batched(to_nodal, X)
+    ctx.oracle('repeated to_nodal call (interleaved with other inputs) is bit-identical', bool(np.array_equal(Z, Z2, equal_nan=True)), None)
+    ctx.oracle('cached basis tables are not mutated by the transforms',
+               bool(all(np.array_equal(t0, t1) for t0, t1 in zip(snap, tables(g)))), None)
     ctx.count('transforms:' + tag)
 
 
@@ -548,4 +673,118 @@ def r_fourier_closed_form(ctx, a):
         ctx.count('fourier:aliased pairs with Gram error > 0.1', int((err[~ok_pairs] > 0.1).sum()))
 
 
-RUNNERS = {'mesh': r_mesh, 'fourier_closed_form': r_fourier_closed_form, 'factory': r_factory, 'layout': r_layout, 'tables': r_tables, 'transforms': r_transforms}
+def r_rejects(ctx, a):
+    """Documented rejections (both implementations)."""
+    jax, jnp, sh, fourier, al = J_()
+    def raises(fn, exc=ValueError):
+        try: fn(); return False
+        except exc: return True
+    for impl in (sh.RealSphericalHarmonics, sh.FastSphericalHarmonics):
+        nm = impl.__name__
+        ctx.oracle(f'unknown latitude_spacing rejected [{nm}]', raises(lambda: sh.Grid(3, 4, 8, 5, latitude_spacing='foo', spherical_harmonics_impl=impl)), None)
+        ctx.oracle(f'longitude_wavenumbers > total_wavenumbers rejected when the basis is built [{nm}]',
+                   raises(lambda: sh.Grid(4, 3, 8, 5, spherical_harmonics_impl=impl).spherical_harmonics.basis), None)
+        ctx.oracle(f'longitude_nodes < longitude_wavenumbers rejected when the basis is built [{nm}]',
+                   raises(lambda: sh.Grid(5, 6, 4, 5, spherical_harmonics_impl=impl).spherical_harmonics.basis), None)
+        g = sh.Grid(3, 4, 8, 5, spherical_harmonics_impl=impl)
+        x = np.ones(g.modal_shape)
+        for n in (0, -1):
+            ctx.oracle(f'clip_wavenumbers(n={n}) rejected [{nm}]', raises(lambda: g.clip_wavenumbers(x, n=n)), None)
+        ctx.oracle(f'longitude_nodes == longitude_wavenumbers accepted [{nm}]',
+                   not raises(lambda: sh.Grid(4, 5, 4, 5, spherical_harmonics_impl=impl).spherical_harmonics.basis, Exception), None)
+    ctx.oracle('get_latitude_nodes: unknown spacing rejected', raises(lambda: sh.get_latitude_nodes(3, 'bar')), None)
+    ctx.oracle('mesh without the x / y axis names rejected',
+               raises(lambda: sh.Grid(3, 4, 8, 5, spherical_harmonics_impl=sh.FastSphericalHarmonics,
+                                      spmd_mesh=jax.sharding.Mesh(np.array(jax.devices()[:1]).reshape(1, 1), ('a', 'b')))), None)
+
+
+def r_forms(ctx, a):
+    """Argument forms, dtypes, ranks and batch layouts of to_nodal / to_modal / integrate: every form must give the
+    result of the plain float64 batched call (itself tied to the model by the `transforms` runner)."""
+    jax, jnp, sh, fourier, al = J_()
+    c = a['cfg']; g = make_grid(c)
+    rng = np.random.Generator(np.random.PCG64(a['seed']))
+    rows, cols = g.modal_shape; In, Jn = g.nodal_shape
+    meshed = bool(c.get('rev'))
+    tag = c.get('impl', 'real') + ('/mesh' if meshed else '') + ('/alias' if c.get('alias') else '') + ('/prec' if c.get('prec') else '')
+    NB = 6
+    xi = rng.integers(-8, 9, size=(NB, rows, cols))
+    x = xi.astype(np.float64)
+    Z = to_nodal(g, x); Y = to_modal(g, Z)
+    # the reference itself against an independent dense evaluation with the dumped tables (numpy, float64)
+    af, ap, aw = tables(g)
+    if is_fast(c):
+        if af.ndim == 3: af = np.transpose(af, (0, 2, 1)).reshape(af.shape[0], -1)
+        ap = np.repeat(ap, 2, axis=0)
+    ctx.oracle_close(f'to_nodal = sum_m f[i,m] sum_l p[m,j,l] x[m,l] (numpy) [{tag}]', Z, np.einsum('im,mjl,bml->bij', af, ap, x),
+                     scale=synth_scale(c, g, x))
+    ctx.oracle_close(f'to_modal = sum_j p[m,j,l] sum_i f[i,m] w[j] z[i,j] (numpy) [{tag}]', Y, np.einsum('mjl,im,j,bij->bml', ap, af, aw, Z),
+                     scale=analysis_scale(c, g, Z))
+    s_syn = synth_scale(c, g, x); s_ana = analysis_scale(c, g, Z)
+    def same(name, got, want, scale):
+        ctx.oracle_close(f'{name} [{tag}]', np.asarray(got, dtype=np.float64), want, scale=scale, tol_rel=2.0 ** -44)
+    # dtypes
+    yi = g.to_nodal(jnp.asarray(xi))
+    ctx.oracle(f'integer-typed spectrum gives a float64 field [{tag}]', str(yi.dtype) == 'float64', str(yi.dtype))
+    same('integer-typed spectrum', yi, Z, s_syn)
+    y32 = g.to_nodal(jnp.asarray(xi, dtype=jnp.float32))
+    same('float32 spectrum (exactly representable values) in x64 mode', y32, Z, s_syn)
+    z32 = Z.astype(np.float32).astype(np.float64)
+    same('float32 field in x64 mode', g.to_modal(jnp.asarray(z32, dtype=jnp.float32)), to_modal(g, z32), analysis_scale(c, g, z32))
+    # numpy forms: strided view, transposed-storage view, read-only, python nesting (pytree with scalars left alone)
+    big = np.zeros((2 * NB, rows, cols)); big[::2] = x
+    same('strided view', g.to_nodal(big[::2]), Z, s_syn)
+    fo = np.asfortranarray(x)
+    same('Fortran-ordered array', g.to_nodal(fo), Z, s_syn)
+    ro = x.copy(); ro.flags.writeable = False
+    same('read-only array', g.to_nodal(ro), Z, s_syn)
+    if not meshed:
+        tree = g.to_nodal({'a': x, 's': 2.5, 't': (x[0], 7)})
+        ctx.oracle(f'pytree input: scalars untouched, structure kept [{tag}]',
+                   isinstance(tree, dict) and tree['s'] == 2.5 and tree['t'][1] == 7, None)
+        same('pytree leaf a', tree['a'], Z, s_syn); same('pytree leaf t[0]', tree['t'][0], Z[0], s_syn)
+        back = g.to_modal({'a': Z, 't': (Z[0],)})
+        same('pytree to_modal', back['a'], Y, s_ana); same('pytree to_modal t[0]', back['t'][0], Y[0], s_ana)
+    # ranks and batch layouts: no leading axis, size-1 axis, batch = rows, batch = cols, three leading axes
+    same('rank 2 (no leading axis)', g.to_nodal(x[1]), Z[1], s_syn)
+    same('rank 2 to_modal', g.to_modal(Z[1]), Y[1], s_ana)
+    same('size-1 leading axis', g.to_nodal(x[2:3]), Z[2:3], s_syn)
+    same('size-1 leading axis to_modal', g.to_modal(Z[2:3]), Y[2:3], s_ana)
+    for nb, nm in (((rows, 'batch size = modal rows'), (cols, 'batch size = modal columns'), (In, 'batch size = longitude nodes'))
+                   if not meshed else ((cols, 'batch size = modal columns'),)):
+        xb = rng.integers(-8, 9, size=(nb, rows, cols)).astype(np.float64)
+        zb = to_nodal(g, xb)
+        ref = np.stack([to_nodal(g, xb[n]) for n in range(min(nb, 3))])
+        same(nm, zb[:len(ref)], ref, synth_scale(c, g, xb))
+        yb = to_modal(g, zb)
+        same(nm + ' (to_modal)', yb[:len(ref)], np.stack([to_modal(g, zb[n]) for n in range(len(ref))]), analysis_scale(c, g, zb))
+    if not meshed:
+        x5 = x.reshape((1, 2, 3, rows, cols))
+        z5 = g.to_nodal(x5)
+        ctx.exact(f'rank-5 output shape [{tag}]', list(z5.shape), [1, 2, 3, In, Jn])
+        same('rank 5 (three leading axes)', np.asarray(z5).reshape((NB, In, Jn)), Z, s_syn)
+        y5 = g.to_modal(z5)
+        same('rank 5 to_modal', np.asarray(y5).reshape((NB, rows, cols)), Y, s_ana)
+        i5 = np.asarray(g.integrate(z5))
+        ctx.exact(f'integrate keeps the leading axes [{tag}]', list(i5.shape), [1, 2, 3])
+        same('integrate rank 5', i5.reshape((NB,)), np.asarray(g.integrate(jnp.asarray(Z))),
+             float(np.einsum('j,bij->b', np.abs(aw), np.abs(Z)).max() * g.radius ** 2) + 1e-300)
+    same('integrate rank 2', np.asarray(g.integrate(jnp.asarray(Z[0]))), np.asarray(g.integrate(jnp.asarray(Z)))[0],
+         float(np.einsum('j,bij->b', np.abs(aw), np.abs(Z)).max() * g.radius ** 2) + 1e-300)
+    # NaN in one slice stays in that slice (leading axes are independent)
+    xn = x.copy(); xn[0, 0, 0] = np.nan
+    zn = to_nodal(g, xn)
+    ctx.oracle(f'a NaN coefficient in slice 0 does not reach the other slices (synthesis) [{tag}]',
+               bool(np.array_equal(zn[1:], Z[1:]) and np.isnan(zn[0]).any()), None)
+    zz = Z.copy(); zz[1, 0, 0] = np.nan
+    yn = to_modal(g, zz)
+    ctx.oracle(f'a NaN grid value in slice 1 does not reach the other slices (analysis) [{tag}]',
+               bool(np.array_equal(yn[[0, 2, 3]], Y[[0, 2, 3]]) and np.isnan(yn[1]).any()), None)
+    # exactly-zero input -> exactly-zero output; purity
+    ctx.oracle(f'zero spectrum -> exactly zero field, zero field -> exactly zero spectrum [{tag}]',
+               bool((to_nodal(g, np.zeros((rows, cols))) == 0).all() and (to_modal(g, np.zeros((In, Jn))) == 0).all()), None)
+    ctx.oracle(f'repeated calls are bit-identical [{tag}]', bool(np.array_equal(to_nodal(g, x), Z) and np.array_equal(to_modal(g, Z), Y)), None)
+    ctx.count('forms:' + tag)
+
+
+RUNNERS = {'rejects': r_rejects, 'forms': r_forms, 'mesh': r_mesh, 'fourier_closed_form': r_fourier_closed_form, 'factory': r_factory, 'layout': r_layout, 'tables': r_tables, 'transforms': r_transforms}
